@@ -132,6 +132,10 @@ func (fc *FCtx) pkgVar(o *types.Var) Val {
 		if isByteSliceType(o.Type()) {
 			return fc.keyConst(o)
 		}
+		if o.Pkg().Path() == "encoding/binary" {
+			s := fc.U.opaque("ByteOrder")
+			return Val{T: fc.U.Const("binary_"+o.Name(), s), S: s, GoT: o.Type()}
+		}
 		if v, ok := fc.E.pkgVarInit(fc, o); ok {
 			return v
 		}
@@ -184,9 +188,9 @@ func (fc *FCtx) zeroTerm(s *Sort, t types.Type) string {
 				n = fmt.Sprint(a.Len())
 			}
 		}
-		return mkSlice(s, n, n, fmt.Sprintf("((as const (Array Int %s)) %s)", s.Elem.Name, fc.zeroTerm(s.Elem, elemType(t))))
+		return mkSlice(s, n, n, fc.constArray("Int", s.Elem, fc.zeroTerm(s.Elem, elemType(t))))
 	case KMap:
-		return app("mk_"+s.Name, fmt.Sprintf("((as const (Array %s Bool)) false)", s.Key.Name), fmt.Sprintf("((as const (Array %s %s)) %s)", s.Key.Name, s.Elem.Name, fc.zeroTerm(s.Elem, elemType(t))))
+		return app("mk_"+s.Name, fmt.Sprintf("((as const (Array %s Bool)) false)", s.Key.Name), fc.constArray(s.Key.Name, s.Elem, fc.zeroTerm(s.Elem, elemType(t))))
 	case KOpaque:
 		if isBz(s) {
 			return "bz_nil"
@@ -635,7 +639,7 @@ func (fc *FCtx) evalCompositeLit(e *ast.CompositeLit, st *State) Val {
 		return Val{T: app("mk_"+s.Name, vals...), S: s, GoT: t}
 	case KSlice:
 		et := elemType(t)
-		arr := fmt.Sprintf("((as const (Array Int %s)) %s)", s.Elem.Name, fc.zeroTerm(s.Elem, et))
+		arr := fc.constArray("Int", s.Elem, fc.zeroTerm(s.Elem, et))
 		n := 0
 		for _, el := range e.Elts {
 			if _, ok := el.(*ast.KeyValueExpr); ok {
@@ -724,4 +728,24 @@ func isDroppedCall(name string) bool {
 		}
 	}
 	return false
+}
+
+// constArray returns the constant array with the given element. cvc5 accepts `as const` only for
+// values, so for elements built from declared constants a named array with a defining axiom is used.
+func (fc *FCtx) constArray(keySort string, elem *Sort, zero string) string {
+	isValue := true
+	for _, tok := range strings.FieldsFunc(zero, func(r rune) bool { return r == '(' || r == ')' || r == ' ' }) {
+		if strings.HasPrefix(tok, "strlit_") || strings.HasPrefix(tok, "zero_") || tok == "bz_nil" || strings.HasPrefix(tok, "zarr") {
+			isValue = false
+		}
+	}
+	if isValue {
+		return fmt.Sprintf("((as const (Array %s %s)) %s)", keySort, elem.Name, zero)
+	}
+	name := "zarr_" + sanitize(keySort) + "_" + sanitize(elem.Name)
+	if !fc.U.declared["c:"+name] {
+		fc.U.decl("c:"+name, fmt.Sprintf("(declare-const %s (Array %s %s))", name, keySort, elem.Name))
+		fc.U.decl("ax:"+name, fmt.Sprintf("(assert (forall ((i %s)) (! (= (select %s i) %s) :pattern ((select %s i)))))", keySort, name, zero, name))
+	}
+	return name
 }
